@@ -55,4 +55,12 @@ theorem Di.degree_balance (s : Store K E) (h : Mirror s) (ks : List K) (hnd : ks
     (ks.map fun k => (s.get k).out.length).sum = (ks.map fun k => (s.get k).inn.length).sum :=
   degree_balance' s h ks hnd hc
 
+/-- the same without any hypothesis on the store: after every history, over any duplicate-free list of nodes that
+    contains the operands of the history (the nodes of the program), out-degrees and in-degrees add up to the same
+    number (out-degree and in-degree describe one and the same edge set) -/
+theorem Di.degree_balance_run (ops : List (Op K E)) (ks : List K) (hnd : ks.Nodup)
+    (hk : ∀ k ∈ opKeys ops, k ∈ ks) :
+    (ks.map fun k => ((Di.run ops).get k).out.length).sum = (ks.map fun k => ((Di.run ops).get k).inn.length).sum :=
+  Di.degree_balance_run' ops ks hnd hk
+
 end G
